@@ -273,11 +273,9 @@ func SplitAtIndex[T ~string](str T, index int) []T {
 		return []T{str, ""}
 	}
 
-	for idx := range str {
-		if idx == index {
-			result = append(result, append(result, str[:idx+1], str[idx+1:])...)
-		}
-	}
+	// Split on the byte index itself: ranging over the runes skips
+	// indices which fall inside a multi-byte character.
+	result = append(result, str[:index+1], str[index+1:])
 
 	return result
 }
